@@ -4,6 +4,8 @@ import MtblProofs.PoolWriterProofs
 import MtblProofs.PoolSorterProofs
 import MtblProofs.TpShareProofs
 import MtblProofs.TpKOrder
+import MtblProofs.TpKWake
+import MtblProofs.TpKUnord
 import MtblProofs.OwnerProofs
 /-
   C13 — Pooled writers and sorters: same result under every interleaving, no hangs.
@@ -240,6 +242,59 @@ theorem C13_kclient_complete {n max njobs : Nat} {o : Bool} {s : St} (hr : Reach
 theorem C13_kclient_line {n max njobs : Nat} {o : Bool} {s : St} (hr : Reachable n max njobs o s) (ho : s.ordered = true)
     (c : Nat) : line s.thr s.cl[c]! = (List.range (s.cl[c]!.nextJob + pend s.cl[c]!.pc)).map some :=
   jord_reachable hr ho c
+
+/-- unordered delivery (the mode pooled sorters use) per client, whatever the other clients sharing the pool do: no result is
+    delivered twice, none is missing (`none`), and only results of jobs the client has dispatched are delivered -/
+theorem C13_kclient_unordered_once {n max njobs : Nat} {o : Bool} {s : St} (hr : Reachable n max njobs o s)
+    (ho : s.ordered = false) (c : Nat) :
+    s.cl[c]!.delivered.count none = 0 ∧
+    ∀ j : Nat, s.cl[c]!.delivered.count (some j) ≤ 1 ∧
+      (0 < s.cl[c]!.delivered.count (some j) → j < s.cl[c]!.nextJob + pend s.cl[c]!.pc) :=
+  unordered_at_most_once hr ho c
+
+/-- … and when the client's thread has returned it has been delivered the results of all its jobs, each exactly once: a
+    permutation of the submissions (what `C13_sorter` takes from the pool, for each of several pooled sorters sharing it) -/
+theorem C13_kclient_unordered_complete {n max njobs : Nat} {o : Bool} {s : St} (hr : Reachable n max njobs o s)
+    (ho : s.ordered = false) (c : Nat) (hd : s.cl[c]!.pc = .done) :
+    s.cl[c]!.delivered.Perm ((List.range s.njobs).map some) :=
+  unordered_complete hr ho c hd
+
+/-- the invariant behind both: every result of a client is in exactly one place — delivered, in the handler's hands, on a
+    thread in the client's queue, or on a worker still carrying it — if the job has been dispatched, and nowhere otherwise;
+    the outstanding counter `rq->nthreads` counts the queued threads and the workers still carrying a job of the client -/
+theorem C13_kclient_unordered_places {n max njobs : Nat} {o : Bool} {s : St} (hr : Reachable n max njobs o s)
+    (ho : s.ordered = false) (c : Nat) (x : Option Nat) :
+    cntU s c x = want s.cl[c]! x ∧ NOk s.thr c s.cl[c]! :=
+  ⟨(uord_reachable hr ho).cnt c x, (nord_reachable hr ho).n c⟩
+
+/-- non-vacuity (unordered): two clients, pool of one worker, two jobs each, run to the end -/
+example : Reachable 2 1 2 false (runAuto 200 (init 2 1 2 false)) ∧
+    ((runAuto 200 (init 2 1 2 false)).ordered = false ∧ (runAuto 200 (init 2 1 2 false)).opc = .done ∧
+     (runAuto 200 (init 2 1 2 false)).cl.toList.map (·.pc) = [CPc.done, CPc.done] ∧
+     (runAuto 200 (init 2 1 2 false)).cl.toList.map (·.delivered.length) = [2, 2]) :=
+  ⟨reachable_runAuto 200 .init, by decide +kernel⟩
+
+/-- no lost wake-up on `pool->c` with several callers asleep in `threadpool_next` (the fault class of "signal only when the
+    list was empty"): while some caller sleeps, the idle workers are no more than the callers standing at the loop head of
+    `threadpool_next` with a job still to dispatch (signalled, woken spuriously, or just arrived); so an idle thread next to a
+    sleeper always comes with a caller that is awake and about to take it -/
+theorem C13_kclient_no_lost_wakeup {n max njobs : Nat} {o : Bool} {s : St} (hr : Reachable n max njobs o s)
+    (hsl : ∃ c : Nat, s.cl[c]!.pc = .next true) :
+    s.idle.length ≤ R s ∧ (s.idle ≠ [] → ∃ c : Nat, s.cl[c]!.pc = .next false ∧ s.cl[c]!.nextJob < s.njobs) :=
+  no_lost_wakeup hr hsl
+
+/-- the owner destroys the pool only after every client thread has returned, and then nobody sleeps in `threadpool_next` -/
+theorem C13_kclient_joined_first {n max njobs : Nat} {o : Bool} {s : St} (hr : Reachable n max njobs o s)
+    (ho : afterJoin s.opc = true) : (∀ c : Nat, s.cl[c]!.pc = .done ∨ s.cl[c]!.pc = .idle) ∧ S s = 0 :=
+  ⟨(wk_reachable hr).over ho, (wk_reachable hr).no_sleeper ho⟩
+
+/-- non-vacuity of `C13_kclient_no_lost_wakeup`: a reachable state with a caller asleep in `threadpool_next` (two clients, pool
+    of one worker: client 0 holds the worker, client 1 found the pool exhausted) -/
+def exSleepSched : List Lbl :=
+  [.run .owner 0, .run .owner 0, .run (.client 0) 0, .run (.client 0) 0, .run (.client 0) 0, .run (.client 0) 0,
+   .run (.client 1) 0, .run (.client 1) 0, .run (.client 1) 0]
+def exSleep : St := exSleepSched.foldl (fun s l => (step s l).getD s) (init 2 1 1 true)
+example : (exSleep.cl.toList.map (·.pc)) = [CPc.assign 0, CPc.next true] ∧ exSleep.count = 1 := by decide +kernel
 
 /-- non-vacuity of `C13_kclient_complete`: a reachable final state — two clients sharing a pool of ONE worker, two jobs each,
     run to the end under a first-enabled-thread scheduler — in which both client threads have returned -/
